@@ -626,6 +626,13 @@ func ElemExpr(c *spec.Case, e *spec.Elem) string {
 	case "struct":
 		return wrap(fmt.Sprintf("%s.Struct[%s]()", k, c.Expr(e.Struct, "")))
 	case "value":
+		if e.Literal {
+			// an untyped constant: its type is inferred (int / string)
+			if c.T(e.Value).Basic == "string" {
+				return fmt.Sprintf("%s.Value(\"%d\")", k, e.H)
+			}
+			return fmt.Sprintf("%s.Value(%d)", k, e.H)
+		}
 		return fmt.Sprintf("%s.Value(%s(vrt.Val(%d, %d)))", k, mk(e.Value), e.VID, e.H)
 	case "set":
 		return e.Set
@@ -645,13 +652,31 @@ func ElemExpr(c *spec.Case, e *spec.Elem) string {
 func fileSource(c *spec.Case, f *spec.File) string {
 	var sb strings.Builder
 	k := kname(c)
-	for i := range f.Sets {
-		s := &f.Sets[i]
-		fmt.Fprintf(&sb, "var %s = %s.Set(\n", s.Name, k)
-		for j := range s.Elems {
-			fmt.Fprintf(&sb, "\t%s,\n", ElemExpr(c, &s.Elems[j]))
+	if f.MultiVar && len(f.Sets) >= 2 {
+		// one var statement with several names: var a, b = Set(...), Set(...)
+		var names, vals []string
+		for i := range f.Sets {
+			s := &f.Sets[i]
+			names = append(names, s.Name)
+			var parts []string
+			for j := range s.Elems {
+				parts = append(parts, ElemExpr(c, &s.Elems[j]))
+			}
+			vals = append(vals, k+".Set(\n\t"+strings.Join(parts, ",\n\t")+",\n)")
+			if len(parts) == 0 {
+				vals[len(vals)-1] = k + ".Set()"
+			}
 		}
-		sb.WriteString(")\n\n")
+		fmt.Fprintf(&sb, "var %s = %s\n\n", strings.Join(names, ", "), strings.Join(vals, ", "))
+	} else {
+		for i := range f.Sets {
+			s := &f.Sets[i]
+			fmt.Fprintf(&sb, "var %s = %s.Set(\n", s.Name, k)
+			for j := range s.Elems {
+				fmt.Fprintf(&sb, "\t%s,\n", ElemExpr(c, &s.Elems[j]))
+			}
+			sb.WriteString(")\n\n")
+		}
 	}
 	for i := range f.Injectors {
 		in := &f.Injectors[i]
